@@ -98,9 +98,14 @@ def multiplier_once(rep: Report, prog: Program) -> None:
             loops = [l for l in own_nodes(f.node) if isinstance(l, ast.For) and norm(l.iter) == fp[2]]
             okc = False
             for l in loops:
-                first = l.body[0] if l.body else None
-                if isinstance(first, ast.Expr) and isinstance(first.value, ast.Call) and callee_last(first.value) == 'update' and norm(first.value.func.value) == conn \
-                        and norm(first.value.args[0]) == f"{norm(l.target)}.nodes":
+                # on every path through one iteration -- also the ones that leave the function early -- the update comes first
+                hdr_l = cfg.node_of(l)
+                be_l = [b for b, lab in cfg.succ[hdr_l] if lab == 'iter'][0]
+                is_upd = lambda k, l=l: cfg.nodes[k].kind == 'stmt' and isinstance(cfg.nodes[k].stmt, ast.Expr) and isinstance(cfg.nodes[k].stmt.value, ast.Call) \
+                    and callee_last(cfg.nodes[k].stmt.value) == 'update' and norm(cfg.nodes[k].stmt.value.func.value) == conn \
+                    and cfg.nodes[k].stmt.value.args and norm(cfg.nodes[k].stmt.value.args[0]) == f"{norm(l.target)}.nodes"
+                after_l = {b for b, lab in cfg.succ[hdr_l] if lab == 'exhaust'}
+                if cfg.all_paths_pass(be_l, is_upd, targets={hdr_l, cfg.exit} | after_l)[0]:
                     okc = True
             rep.ob(rule, f.fq(), f"{conn} collects the nodes of every edge", f.loc(c), okc, '' if okc else f"`{conn}` is not updated with edge.nodes for every edge before anything else in the loop")
     # callers pass the complete node set of the rule
